@@ -101,9 +101,9 @@ func allSpecs() map[string]*PropSpec {
 	add(&PropSpec{
 		ID:          "C16",
 		Technique:   "SSA pipeline analysis of the completion handler (generate, filter, rank, truncate by data flow and dominance), comparator direction check, edit-range stores traced to the request position, unit analysis",
-		Explanation: "I-LIMIT: the list returned by completion is the ranked list or its zero-based prefix ranked[:MaxResults] taken under len(ranked) > MaxResults, and the limit is read only by the normaliser, the settings parser and that truncation (so a smaller maximum yields a prefix of a larger one and at most the maximum is returned). I-ORDER: generate -> filter -> rank -> truncate by data flow. I-FLAG: the filter's mode argument is the unmodified fuzzyMatching setting from the per-request settings snapshot. I-RANK: the ranking comparator is descending in score and in use count. I-RANGE: the replace range ends at the request position, its start is a byte offset clamped to the cursor and converted to UTF-16. M-ORDER (item order), workspace freshness (names offered exist in the workspace) and T6 for the two completion settings.",
+		Explanation: "I-LIMIT: the list returned by completion is the ranked list or its zero-based prefix ranked[:MaxResults] taken under len(ranked) > MaxResults, and the limit is read only by the normaliser, the settings parser and that truncation (so a smaller maximum yields a prefix of a larger one and at most the maximum is returned). I-ORDER: generate -> filter -> rank -> truncate by data flow. I-FLAG: the filter's mode argument is the unmodified fuzzyMatching setting from the per-request settings snapshot. I-RANK: the ranking comparator is descending in score and in use count. I-RANGE: the replace range ends at the request position, its start is a byte offset clamped to the cursor and converted to UTF-16. M-ORDER (item order), workspace freshness (names offered exist in the workspace) and T6 for the two completion settings. I-PAIR: the account index's list (All) and its per-prefix view (ByPrefix) are extended in the same functions (the lookup trusts ByPrefix when the prefix key exists).",
 		NotDecided:  "soundness/completeness of the offered set against the symbol table, the fuzzy and prefix predicates, the context classifier (value semantics).",
-		Rules:       append([]func(*Ctx){rulePipeline, ruleMapOrder, ruleUnits("module", nil)}, wsFresh...),
+		Rules:       append([]func(*Ctx){rulePipeline, rulePairedFields, ruleMapOrder, ruleUnits("module", nil)}, wsFresh...),
 	})
 	add(&PropSpec{
 		ID:          "C08",
